@@ -304,7 +304,9 @@ func genFs(ctx context.Context, rng *c.Rng, out *c.Out, root string, n int, comp
 				if !ok {
 					return nil
 				}
-				pre = path.Clean(nm) + "/"
+				if pre = strings.TrimPrefix(path.Clean("/"+nm), "/"); pre != "" {
+					pre += "/"
+				}
 			}
 			seen := map[string]bool{}
 			for _, k := range known {
@@ -339,7 +341,44 @@ func genFs(ctx context.Context, rng *c.Rng, out *c.Out, root string, n int, comp
 				return pickRootPath()
 			}
 		}
-		pickPath := func(dirfd int64) string { return slash(pickRel(dirfd)) }
+		// decor: about 1 path argument in 8 is not clean — ".", "..", empty components, now and then a path that
+		// leaves the directory or is rooted (EPERM). atPath normalises lexically, so "x/../a" is "a" whether or not x
+		// exists. A path that normalises to the directory itself is only produced where the caller allows it.
+		decor := func(p string, allowEmpty bool) string {
+			if rng.Intn(8) != 0 {
+				return p
+			}
+			comps := strings.Split(p, "/")
+			join := func(c []string) string { return strings.Join(c, "/") }
+			q := p
+			switch rng.Intn(10) {
+			case 0:
+				q = "./" + p
+			case 1:
+				q = p + "/."
+			case 2, 3:
+				i := 1 + rng.Intn(len(comps))
+				mid := []string{"//", "/./", "/.//"}[rng.Intn(3)]
+				q = join(comps[:i]) + mid + join(comps[i:])
+			case 4, 5:
+				i := rng.Intn(len(comps))
+				c := append(append(append([]string{}, comps[:i]...), fsNames[rng.Intn(6)], ".."), comps[i:]...)
+				q = join(c)
+			case 6:
+				q = p + "/../" + comps[len(comps)-1]
+			case 7:
+				q = p + "/.."
+			case 8:
+				q = []string{"../" + p, p + strings.Repeat("/..", len(comps)+1), "..", p + "/../../" + comps[0]}[rng.Intn(4)]
+			default:
+				q = "/" + p
+			}
+			if !allowEmpty && !strings.HasPrefix(q, "/") && path.Clean(q) == "." {
+				return p
+			}
+			return q
+		}
+		pickPath := func(dirfd int64, allowEmpty bool) string { return slash(decor(pickRel(dirfd), allowEmpty)) }
 		// an open directory descriptor other than the pre-open half of the time (if there is one), now and then anything, else the pre-open
 		pickDirfd := func() int64 {
 			var dirs []int64
@@ -391,8 +430,14 @@ func genFs(ctx context.Context, rng *c.Rng, out *c.Out, root string, n int, comp
 		// full: the string atPath produces for (dirfd, p), when dirfd is the pre-open or a tracked descriptor
 		full := func(dirfd int64, p string) (string, bool) {
 			r, ok := route(dirfd)
-			return r + p, ok
+			c := path.Clean(p) // atPath: path.Clean, then the trailing slash is put back
+			if hasSlash(p) {
+				c += "/"
+			}
+			return r + c, ok
 		}
+		// cl: the mount-relative clean path a full string stands for ("" = the mount point)
+		cl := func(fp string) string { return strings.TrimPrefix(path.Clean("/"+fp), "/") }
 		exec := func(op []any) {
 			ob := fsExec(w, op)
 			cs.Ops = append(cs.Ops, op)
@@ -404,28 +449,31 @@ func genFs(ctx context.Context, rng *c.Rng, out *c.Out, root string, n int, comp
 			case "open":
 				fd := ob[1].(int64)
 				fp, _ := full(op[5].(int64), op[1].(string))
-				cp := path.Clean(fp)
+				cp := cl(fp)
 				drop(fd)
 				fds = append(fds, fd)
 				names[fd] = fp
+				if fp == "." || fp == "/" { // FSContext.OpenFile
+					names[fd] = ""
+				}
 				if op[2].(int64)&1 != 0 {
 					known = append(known, cp)
 					if kind[cp] == 0 {
 						kind[cp] = 'f'
 					}
 				}
-				isDir[fd] = op[2].(int64)&2 != 0 || hasSlash(fp) || kind[cp] == 'd'
+				isDir[fd] = op[2].(int64)&2 != 0 || hasSlash(fp) || kind[cp] == 'd' || cp == ""
 			case "mkdir":
 				fp, _ := full(op[2].(int64), op[1].(string))
-				known = append(known, path.Clean(fp))
-				kind[path.Clean(fp)] = 'd'
+				known = append(known, cl(fp))
+				kind[cl(fp)] = 'd'
 			case "rmdir", "unlink":
 				fp, _ := full(op[2].(int64), op[1].(string))
-				delete(kind, path.Clean(fp))
+				delete(kind, cl(fp))
 			case "rename":
 				fa, _ := full(op[3].(int64), op[1].(string))
 				fb, _ := full(op[4].(int64), op[2].(string))
-				ca, cb := path.Clean(fa), path.Clean(fb)
+				ca, cb := cl(fa), cl(fb)
 				if ca != cb {
 					known = append(known, cb)
 					if k, ok := kind[ca]; ok {
@@ -481,11 +529,11 @@ func genFs(ctx context.Context, rng *c.Rng, out *c.Out, root string, n int, comp
 					rights = 2
 				}
 				dfd := pickDirfd()
-				p := pickPath(dfd)
+				p := pickPath(dfd, oflags == 0 || oflags == 2)
 				if rng.Intn(4) == 0 { // open a known directory, so that later calls can go through it
 					if ds := below(dfd, true); len(ds) > 0 {
-						p = slash(ds[rng.Intn(len(ds))])
 						oflags = int64([]int{2, 2, 2, 0}[rng.Intn(4)])
+						p = slash(decor(ds[rng.Intn(len(ds))], true))
 						rights = 2
 					}
 				}
@@ -563,13 +611,13 @@ func genFs(ctx context.Context, rng *c.Rng, out *c.Out, root string, n int, comp
 				if _, ok := names[dfd]; ok && dfd != 3 && rng.Intn(4) != 0 {
 					p = pickRel(dfd)
 				}
-				op = []any{"mkdir", slash(p), dfd}
+				op = []any{"mkdir", slash(decor(p, false)), dfd}
 			case k < 86:
 				dfd := pickDirfd()
-				op = []any{"rmdir", pickPath(dfd), dfd}
+				op = []any{"rmdir", pickPath(dfd, false), dfd}
 			case k < 90:
 				dfd := pickDirfd()
-				op = []any{"unlink", pickPath(dfd), dfd}
+				op = []any{"unlink", pickPath(dfd, false), dfd}
 			case k < 95:
 				d1 := pickDirfd()
 				d2 := d1
@@ -583,20 +631,20 @@ func genFs(ctx context.Context, rng *c.Rng, out *c.Out, root string, n int, comp
 				if rng.Intn(10) == 0 {
 					b, d2 = a+"/"+fsNames[rng.Intn(6)], d1
 				}
-				a, b = slash(a), slash(b)
+				a, b = slash(decor(a, false)), slash(decor(b, false))
 				// Not generated: the same path spelled in two textually different ways with equal trailing-slash
 				// flags (possible only through a directory descriptor opened as "dir/": "dir//x" vs "dir/x").
 				// sysfs.rename short-cuts textually identical names only; the model identifies a name with its
 				// component list and cannot tell the two spellings apart.
 				fa, oka := full(d1, a)
 				fb, okb := full(d2, b)
-				if oka && okb && fa != fb && path.Clean(fa) == path.Clean(fb) && hasSlash(a) == hasSlash(b) {
+				if oka && okb && fa != fb && cl(fa) == cl(fb) && hasSlash(a) == hasSlash(b) {
 					b, d2 = a, d1
 				}
 				op = []any{"rename", a, b, d1, d2}
 			default:
 				dfd := pickDirfd()
-				op = []any{"stat", pickPath(dfd), dfd}
+				op = []any{"stat", pickPath(dfd, true), dfd}
 			}
 			exec(op)
 		}
